@@ -166,6 +166,8 @@ def cargo_build(package, profile="dev", timeout=3600):
     cmd = ["cargo", "build", "--offline", "-p", package]
     if profile == "release":
         cmd.append("--release")
+    if os.environ.get("VERIF_TIER") == "thorough" or THOROUGH:
+        cmd += ["-j", "8"]          # thorough crates are large: bound the memory of parallel rustc processes
     t0 = time.time()
     p = subprocess.run(cmd, cwd=HARNESS, env=ENV, stdout=subprocess.PIPE, stderr=subprocess.STDOUT, timeout=timeout)
     if p.returncode != 0:
@@ -182,6 +184,7 @@ class BuildError(ToolError):
         self.text = text
 
 
+THOROUGH = False     # set by check.py for --tier thorough
 FOLLOWERS = None     # path of a JSON file with the follower suffixes (C07) emitted by the specification
 
 
